@@ -368,6 +368,60 @@ func (x *SPE) block(st *pathState, b, pred *ssa.BasicBlock) {
 func (x *SPE) instrsFrom(st *pathState, b *ssa.BasicBlock, from int) {
 	for idx := from; idx < len(b.Instrs); idx++ {
 		in := b.Instrs[idx]
+		if lk, ok := in.(*ssa.Lookup); ok && lk.CommaOk {
+			// v, ok := table[key] on a local table with constant keys: one
+			// outcome per entry (key == k_i) and the miss
+			if m := x.val(st, lk.X); m.Op == OpMakeMap {
+				mk := "map:" + m.String()
+				if nE := st.cells[mk+"#n"]; nE != nil && st.cells[mk+"#open"] == nil {
+					n, _ := nE.intConst()
+					if n > 0 && n <= 12 {
+						key := x.val(st, lk.Index)
+						cur := st
+						done := false
+						for i := int64(0); i < n && !done; i++ {
+							kc := cur.cells[fmt.Sprintf("%s#key%d", mk, i)]
+							val := cur.cells[mk+"["+kc.Const.ExactString()+"]"]
+							cond := foldBin(token.EQL, key, kc, types.Typ[types.Bool], lk.Pos())
+							if v, isC := cond.boolConst(); isC {
+								if v {
+									cur.env[lk] = &Expr{Op: "tuple", Args: []*Expr{val, mkConstBool(true)}, Type: lk.Type()}
+									x.instrsFrom(cur, b, idx+1)
+									done = true
+								}
+								continue
+							}
+							a, pol := normAtom(cond)
+							if v, known := cur.known(a); known {
+								if v == pol {
+									cur.env[lk] = &Expr{Op: "tuple", Args: []*Expr{val, mkConstBool(true)}, Type: lk.Type()}
+									x.instrsFrom(cur, b, idx+1)
+									done = true
+								}
+								continue
+							}
+							hit := cur.clone()
+							hit.addLit(a, pol, lk.Pos(), lk)
+							hit.env[lk] = &Expr{Op: "tuple", Args: []*Expr{val, mkConstBool(true)}, Type: lk.Type()}
+							x.instrsFrom(hit, b, idx+1)
+							cur.addLit(a, !pol, lk.Pos(), lk)
+						}
+						if !done {
+							var zero *Expr
+							if t, ok := lk.Type().(*types.Tuple); ok {
+								zero = zeroOf(t.At(0).Type())
+							}
+							if zero == nil {
+								zero = &Expr{Op: OpFresh, Name: "zero", Type: lk.Type()}
+							}
+							cur.env[lk] = &Expr{Op: "tuple", Args: []*Expr{zero, mkConstBool(false)}, Type: lk.Type()}
+							x.instrsFrom(cur, b, idx+1)
+						}
+						return
+					}
+				}
+			}
+		}
 		if x.StopAt != nil && len(st.frames) == 0 {
 			if !(in == x.StartAt && !st.begun) && x.StopAt(in) {
 				var res []*Expr
@@ -603,6 +657,33 @@ func (x *SPE) modelStdlib(st *pathState, b *ssa.BasicBlock, idx int, call *ssa.C
 		name = name[:i]
 	}
 	args := call.Call.Args
+	// strings.Builder: the text written so far is kept in a cell of the
+	// builder; WriteString appends, String gives it back, so that building a
+	// string piece by piece reads like the concatenation it is
+	if pkg == "strings" && cal.Signature.Recv() != nil && strings.HasSuffix(cal.Signature.Recv().Type().String(), "strings.Builder") && len(args) >= 1 {
+		bAddr := x.val(st, args[0])
+		key := bAddr.String() + "#text"
+		strT := types.Typ[types.String]
+		cur := st.cells[key]
+		if cur == nil {
+			cur = &Expr{Op: OpConst, Const: constant.MakeString(""), Type: strT}
+		}
+		switch name {
+		case "WriteString":
+			if len(args) != 2 {
+				return false
+			}
+			st.cells[key] = foldBin(token.ADD, cur, x.val(st, args[1]), strT, call.Pos())
+			st.env[call] = &Expr{Op: "tuple", Args: []*Expr{{Op: OpFresh, Name: "n", Type: types.Typ[types.Int]}, {Op: OpConst, Type: types.Universe.Lookup("error").Type()}}, Type: call.Type()}
+			x.instrsFrom(st, b, idx+1)
+			return true
+		case "String":
+			st.env[call] = cur
+			x.instrsFrom(st, b, idx+1)
+			return true
+		}
+		return false
+	}
 	switch name {
 	case "Clone":
 		if len(args) != 1 || pkg == "strings" {
@@ -668,6 +749,7 @@ func (x *SPE) modelStdlib(st *pathState, b *ssa.BasicBlock, idx int, call *ssa.C
 		} else {
 			cut = &Expr{Op: OpSlice, Args: []*Expr{s, nil, foldBin(token.SUB, lenOf(s), lenOf(p), intT, call.Pos()), nil}, Type: args[0].Type(), Pos: call.Pos()}
 		}
+		sliceEv := Event{Kind: EvSlice, Addr: s, Val: cut, Pos: call.Pos(), Instr: call}
 		result := func(found bool) *Expr {
 			v := s
 			if found {
@@ -680,12 +762,18 @@ func (x *SPE) modelStdlib(st *pathState, b *ssa.BasicBlock, idx int, call *ssa.C
 		}
 		a, pol := normAtom(atom)
 		if v, ok := st.known(a); ok {
+			if v == pol {
+				st.events = append(st.events, sliceEv)
+			}
 			st.env[call] = result(v == pol)
 			x.instrsFrom(st, b, idx+1)
 			return true
 		}
 		if x.Decide != nil {
 			if v, ok := x.Decide(a, st); ok {
+				if v == pol {
+					st.events = append(st.events, sliceEv)
+				}
 				st.env[call] = result(v == pol)
 				x.instrsFrom(st, b, idx+1)
 				return true
@@ -694,6 +782,7 @@ func (x *SPE) modelStdlib(st *pathState, b *ssa.BasicBlock, idx int, call *ssa.C
 		st.events = append(st.events, Event{Kind: EvCall, Val: atom, Pos: call.Pos(), Instr: call})
 		t := st.clone()
 		t.addLit(a, pol, call.Pos(), call)
+		t.events = append(t.events, sliceEv) // the cut is a slice of the subject, as in the long form
 		t.env[call] = result(true)
 		x.instrsFrom(t, b, idx+1)
 		st.addLit(a, !pol, call.Pos(), call)
@@ -1084,6 +1173,10 @@ func unslice(a, i *Expr) (*Expr, *Expr) {
 		if _, isC := a.Args[1].intConst(); isC {
 			return a.Args[0], foldBin(token.ADD, i, a.Args[1], i.Type, i.Pos)
 		}
+		// x[e:][0] = x[e]
+		if z, isC := i.intConst(); isC && z == 0 {
+			return a.Args[0], a.Args[1]
+		}
 	}
 	return a, i
 }
@@ -1437,6 +1530,23 @@ func (x *SPE) instr(st *pathState, in ssa.Instruction) {
 		st.env[in] = e
 	case *ssa.MapUpdate:
 		st.events = append(st.events, Event{Kind: EvMapUpd, Addr: x.val(st, in.Map), Key: x.val(st, in.Key), Val: x.val(st, in.Value), Pos: in.Pos(), Instr: in})
+		// a map made on this path and filled with constant keys is a table:
+		// its entries are remembered (see the Lookup fork in instrsFrom)
+		if m := x.val(st, in.Map); m.Op == OpMakeMap {
+			k := x.val(st, in.Key)
+			mk := "map:" + m.String()
+			if k.isConst() && k.Const != nil && st.cells[mk+"#open"] == nil {
+				st.cells[mk+"["+k.Const.ExactString()+"]"] = x.val(st, in.Value)
+				n := int64(0)
+				if c := st.cells[mk+"#n"]; c != nil {
+					n, _ = c.intConst()
+				}
+				st.cells[fmt.Sprintf("%s#key%d", mk, n)] = k
+				st.cells[mk+"#n"] = mkConstInt(n+1, types.Typ[types.Int])
+			} else {
+				st.cells[mk+"#open"] = mkConstBool(true) // a computed key: no longer a table
+			}
+		}
 	case *ssa.Store:
 		a, v := x.val(st, in.Addr), x.val(st, in.Val)
 		if isPointerDeref(a) {
